@@ -22,6 +22,10 @@ type Vector struct {
 	Vu    string `json:"vu"`
 	Modes string `json:"modes"` // zero | three | flags | max | mixed
 	Exp   string `json:"exp"`   // ok | refused
+	// wallet v5r1 through CreateSignedMsgBodyCell (via = "x"): kinds of the extended actions and the signed message type
+	Via string   `json:"via"`
+	Ext []string `json:"ext"`
+	Mt  string   `json:"mt"`
 }
 
 func concreteU32(rng *rand.Rand, s string) (uint32, error) {
@@ -85,11 +89,24 @@ func Replay(in string, w *ev.Writer, seed int64, flips bool) error {
 		for i := range tc.Raw {
 			m := reqMsg{Kind: "msg", Bounce: i%2 == 0, Wc: tc.Opts.Wc, Amount: uint64(1000 + i)}
 			rng.Read(m.Addr[:])
-			if i%7 == 3 {
+			if v.Via == "x" {
+				m.Mode = modeOf(rng, v.Modes, i)
+				tc.Fields = append(tc.Fields, m)
+			} else if i%7 == 3 {
 				m.Kind, m.Comment = "simple", fmt.Sprintf("transfer %d", i)
 			}
 			tc.Raw[i] = marshalInternal(m.sendable())
 			tc.Raw[i].Mode = modeOf(rng, v.Modes, i)
+		}
+		if v.Via == "x" {
+			if v.Ver != "V5R1" {
+				return fmt.Errorf("vector %d: extended actions are a wallet v5r1 matter", v.Vec)
+			}
+			tc.ViaX, tc.Ext = true, extOf(rng, v.Ext, tc.Opts.Wc)
+			if v.Mt == "int" {
+				tc.MsgType = "int"
+			}
+			r.runBody(tc)
 		}
 		r.runSend(tc)
 	}
